@@ -81,6 +81,11 @@ pub fn build_local_search_solver(
          start_time: Option<Instant>,
          _: Option<stdtime::Duration>,
          _: Option<u32>| {
+            #[cfg(rssched_verif)]
+            crate::verif_hooks::record_step(
+                previous_solution.map(|p| p.solution().get_schedule()),
+                current_solution.solution().get_schedule(),
+            );
             println!(
                 "Iteration {} - Swap: {}",
                 iteration_counter,
